@@ -7,6 +7,7 @@ package main
 
 import (
 	"fmt"
+	"go/types"
 	"os"
 	"sort"
 	"strconv"
@@ -16,16 +17,26 @@ import (
 func namesLine(fi *FuncInfo) string {
 	var g [3][]string
 	for k, v := range fi.DeclOrder {
+		ent := v.Name() + ":" + typeKey(v.Type())
+		if t := fi.DeclTag[v]; t != "" {
+			ent += "@" + t
+		}
 		switch {
 		case k < fi.NSigIn:
-			g[0] = append(g[0], v.Name())
+			g[0] = append(g[0], ent)
 		case k < fi.NSigIn+fi.NSigOut:
-			g[1] = append(g[1], v.Name())
+			g[1] = append(g[1], ent)
 		default:
-			g[2] = append(g[2], v.Name())
+			g[2] = append(g[2], ent)
 		}
 	}
 	return "//@   names " + strings.Join(g[0], " ") + " | " + strings.Join(g[1], " ") + " | " + strings.Join(g[2], " ")
+}
+
+// typeKey: a type as one token (package-qualified by name, spaces removed)
+func typeKey(t types.Type) string {
+	s := types.TypeString(t, func(p *types.Package) string { return p.Name() })
+	return strings.NewReplacer(" ", "", "|", "/", "@", "_").Replace(s)
 }
 
 func cmdNames(args []string) int {
